@@ -46,5 +46,7 @@ SEEDED = [
     ("C12-11", "C12-DECOMP"),
     ("C12-12", "C12-DECOMP"),
     ("C12-13", "C12-EMPTY"),
+    ("C12-14", "C12-COST"),
+    ("C12-15", "C12-COST"),
 ]
 MUTANTS = list(MUTANTS) + [_P("seed-" + sid, _os.path.join(_SEEDS, sid, "patch.diff"), rule) for sid, rule in SEEDED if _os.path.exists(_os.path.join(_SEEDS, sid, "patch.diff"))]
